@@ -4,20 +4,24 @@
 From CV Require Import Base Consts.
 Open Scope N_scope.
 
-Inductive cop := CSend (v : N) | CClone | CDropS.
+(* CSendB: SyncSender::send, which blocks while the queue is full (on channel() it is Sender::send) *)
+Inductive cop := CSend (v : N) | CClone | CDropS | CSendB (v : N).
 
 Definition YC_SEND := 111. Definition YC_TRYSEND := 112. Definition YC_RECV := 114. Definition YC_PING := 102.
+Definition YC_BSEND := 113.
 Definition YC_CLOSE := 101. Definition YC_DRAIN := 103. Definition YC_POLL := 132. Definition YC_DROP := 52. Definition YC_CLONE := 53.
 
 (* what a sender thread is in the middle of *)
 (* CToPingRelease: the ping of a dropped sender, after which its Ping handle is released; CToClose: that handle was the last one *)
-Inductive cstage := CIdle | CToPing | CToPingRelease | CToClose.
+(* blocking send: CToPingB the ping after its enqueue (then send() returns Ok); CB1 the ping of its failed try_send; CB2 before the
+   blocking mpsc send; CBlocked inside it, waiting for room *)
+Inductive cstage := CIdle | CToPing | CToPingRelease | CToClose | CToPingB | CB1 (v : N) | CB2 (v : N) | CBlocked (v : N).
 Record cthread := mkCT { ct_ops : list cop; ct_mine : N; ct_stage : cstage }.
 
 Inductive clstage := CLIdle | CLDrain | CLLoop (left : nat) | CLReping | CLCloseWrite.
 Record clthread := mkCL { cl_disp : nat; cl_stage : clstage }.
 
-Inductive ccev := CCStep (tid : nat) (yid : N) | CCMsg (v : N) | CCClosed | CCRemoved | CCFull (tid : nat) | CCDisc (tid : nat).
+Inductive ccev := CCStep (tid : nat) (yid : N) | CCMsg (v : N) | CCClosed | CCRemoved | CCFull (tid : nat) | CCDisc (tid : nat) | CCSentOk (tid : nat).
 
 Record ccst := mkCC {
   cq : list N;               (* the mpsc queue *)
@@ -56,9 +60,29 @@ Fixpoint upd_ct (l : list cthread) (i : nat) (t : cthread) : list cthread :=
 Definition drop_pings (s : ccst) : bool :=
   match cbound s with None => true | Some _ => csenders s =? 1 end.
 
+(* the blocking mpsc send of SyncSender::send: SendError once the receiver is gone, waits while the queue is full, else enqueues *)
+Definition bsend_attempt (s : ccst) (i : nat) (t : cthread) (v : N) (lg : list ccev) : ccst * cthread :=
+  if negb (creg s) then
+    (mkCC (cq s) (csenders s) (cctr s) (creg s) (cbound s) (cph s) (cloop s) (cthr s) (csent s) (cdelivered s) (cclosed s)
+          (CCDisc (S i) :: lg), mkCT (ct_ops t) (ct_mine t) CIdle)
+  else if cc_full s then
+    (mkCC (cq s) (csenders s) (cctr s) (creg s) (cbound s) (cph s) (cloop s) (cthr s) (csent s) (cdelivered s) (cclosed s) lg,
+     mkCT (ct_ops t) (ct_mine t) (CBlocked v))
+  else
+    (mkCC (cq s ++ [v]) (csenders s) (cctr s) (creg s) (cbound s) (cph s) (cloop s) (cthr s) (csent s ++ [v]) (cdelivered s) (cclosed s) lg,
+     mkCT (ct_ops t) (ct_mine t) CToPingB).
+
 Definition ct_step (s : ccst) (i : nat) (t : cthread) : ccst * cthread :=
   let log e := e :: ctr_log s in
   match ct_stage t with
+  | CToPingB =>
+      (mkCC (cq s) (csenders s) (cctr s + INCREMENT_PING) (creg s) (cbound s) (cph s) (cloop s) (cthr s) (csent s) (cdelivered s) (cclosed s)
+            (CCSentOk (S i) :: log (CCStep (S i) YC_PING)), mkCT (ct_ops t) (ct_mine t) CIdle)
+  | CB1 v =>
+      (mkCC (cq s) (csenders s) (cctr s + INCREMENT_PING) (creg s) (cbound s) (cph s) (cloop s) (cthr s) (csent s) (cdelivered s) (cclosed s)
+            (log (CCStep (S i) YC_PING)), mkCT (ct_ops t) (ct_mine t) (CB2 v))
+  | CB2 v => bsend_attempt s i t v (log (CCStep (S i) YC_BSEND))
+  | CBlocked v => if cc_full s && creg s then (s, t) else bsend_attempt s i t v (ctr_log s)
   | CToPing =>
       (mkCC (cq s) (csenders s) (cctr s + INCREMENT_PING) (creg s) (cbound s) (cph s) (cloop s) (cthr s) (csent s) (cdelivered s) (cclosed s)
             (log (CCStep (S i) YC_PING)), mkCT (ct_ops t) (ct_mine t) CIdle)
@@ -84,6 +108,18 @@ Definition ct_step (s : ccst) (i : nat) (t : cthread) : ccst * cthread :=
           else
             (mkCC (cq s ++ [v]) (csenders s) (cctr s) (creg s) (cbound s) (cph s) (cloop s) (cthr s) (csent s ++ [v]) (cdelivered s) (cclosed s)
                   (log (CCStep (S i) y)), mkCT r (ct_mine t) CToPing)
+      | CSendB v :: r =>
+          let y := match cbound s with None => YC_SEND | Some _ => YC_TRYSEND end in
+          if negb (creg s) then
+            (mkCC (cq s) (csenders s) (cctr s) (creg s) (cbound s) (cph s) (cloop s) (cthr s) (csent s) (cdelivered s) (cclosed s)
+                  (CCDisc (S i) :: log (CCStep (S i) y)), mkCT r (ct_mine t) CIdle)
+          else if cc_full s then
+            (* the inner try_send: Full - it pings, then the blocking send follows *)
+            (mkCC (cq s) (csenders s) (cctr s) (creg s) (cbound s) (cph s) (cloop s) (cthr s) (csent s) (cdelivered s) (cclosed s)
+                  (log (CCStep (S i) y)), mkCT r (ct_mine t) (CB1 v))
+          else
+            (mkCC (cq s ++ [v]) (csenders s) (cctr s) (creg s) (cbound s) (cph s) (cloop s) (cthr s) (csent s ++ [v]) (cdelivered s) (cclosed s)
+                  (log (CCStep (S i) y)), mkCT r (ct_mine t) CToPingB)
       | CClone :: r =>
           (mkCC (cq s) (csenders s + 1) (cctr s) (creg s) (cbound s) (match cbound s with None => cph s + 1 | Some _ => cph s end) (cloop s) (cthr s) (csent s) (cdelivered s) (cclosed s)
                 (log (CCStep (S i) YC_CLONE)), mkCT r (ct_mine t + 1) CIdle)
@@ -149,7 +185,7 @@ Definition cc_step (s : ccst) (k : nat) : ccst :=
 Fixpoint wf_cprog (mine : N) (ops : list cop) : bool :=
   match ops with
   | [] => true
-  | CSend _ :: r => (0 <? mine) && wf_cprog mine r
+  | CSend _ :: r | CSendB _ :: r => (0 <? mine) && wf_cprog mine r
   | CClone :: r => (0 <? mine) && wf_cprog (mine + 1) r
   | CDropS :: r => (0 <? mine) && wf_cprog (mine - 1) r
   end.
